@@ -21,7 +21,8 @@ use crate::{Ctx, Suite};
 
 pub fn run<C: Suite>(ctx: &mut Ctx) {
     let slow = C::NAME == "ed448";
-    let ns: Vec<u16> = if ctx.quick() { vec![3] } else { vec![3, 4] };
+    let heavy = slow || C::NAME == "p256";
+    let ns: Vec<u16> = if ctx.quick() && heavy { vec![3] } else { vec![3, 4] };
     for n in ns {
         for t in 2..=n {
             for kind in ["default", "derived"] {
